@@ -21,7 +21,7 @@
 //! substituted accounts, the inner instruction itself failed after the CPI was issued). A failure
 //! the model cannot explain is a coverage note (`note_unexpected_*`), never a violation: C36 is a
 //! safety property.
-use crate::world::{self, exchange, pda, timelock::*, World, LAMPORTS, STORE_PID};
+use crate::world::{self, exchange, timelock::*, World, LAMPORTS, STORE_PID};
 use anchor_lang::{
     prelude::*,
     solana_program::{instruction::Instruction, system_instruction},
@@ -32,8 +32,9 @@ use std::collections::{BTreeMap, BTreeSet};
 use vcommon::{json, serde_json::Value, Args, Monitor, Rng};
 
 const EXEC_ROLES: [&str; 3] = ["ADMIN", "CONFIG_KEEPER", "FEATURE_KEEPER"];
-const AMOUNT_KEYS: [&str; 5] = [
-    "claimable_time_window",
+const AMOUNT_KEYS: [&str; 6] = [
+    "claimable_time_window", // changes are prohibited by the store: a legitimate inner failure
+    "oracle_max_timestamp_range",
     "recent_time_window",
     "request_expiration",
     "oracle_max_age",
@@ -315,9 +316,24 @@ impl<'a> Hist<'a> {
         let (mut ixn, effect, mut label) = match kind {
             0 => match exec {
                 0 => {
-                    let e = self.rng.below(EXEC_ROLES.len() as u64) as usize;
+                    let mut e = self.rng.below(EXEC_ROLES.len() as u64) as usize;
+                    let mut user = *self.rng.pick(&self.approvers.clone());
+                    if !self.mode_b && self.rng.chance(2, 3) {
+                        // Mode A: roles only come back through the timelock; prefer re-granting a role
+                        // that no approver holds any more.
+                        for k in 0..EXEC_ROLES.len() {
+                            let r = self.tld(k);
+                            if !self.approvers.iter().any(|a| self.roles.grants.contains(&(*a, r.clone()))) {
+                                e = k;
+                                break;
+                            }
+                        }
+                        let r = self.tld(e);
+                        if let Some(u) = self.approvers.iter().find(|a| !self.roles.grants.contains(&(**a, r.clone()))) {
+                            user = *u;
+                        }
+                    }
                     let role = self.tld(e);
-                    let user = *self.rng.pick(&self.approvers.clone());
                     let holds = self.roles.grants.contains(&(user, role.clone()));
                     let c = self.rng.below(100);
                     if self.mode_b || c < 80 {
@@ -609,7 +625,7 @@ impl<'a> Hist<'a> {
         let mut all = self.approvers.clone();
         all.push(self.t.tl_admin);
         let holders: Vec<Pubkey> = all.iter().copied().filter(|u| self.roles.holds(u, &tld)).collect();
-        if !holders.is_empty() && self.rng.chance(7, 10) {
+        if !holders.is_empty() && self.rng.chance(17, 20) {
             *self.rng.pick(&holders)
         } else {
             self.anyone()
@@ -625,7 +641,19 @@ impl<'a> Hist<'a> {
         } else {
             self.pick_where(|b| matches!(b.state, BState::Executed | BState::Cancelled))
         };
-        let Some(i) = pick.or_else(|| self.pick_where(|_| true)) else { return };
+        let Some(mut i) = pick.or_else(|| self.pick_where(|_| true)) else { return };
+        // Nobody can approve for a role without holders: mostly look for another buffer.
+        for _ in 0..3 {
+            let tld = self.tld(self.bufs[i].exec);
+            let mut all = self.approvers.clone();
+            all.push(self.t.tl_admin);
+            if all.iter().any(|u| self.roles.holds(u, &tld)) || self.rng.chance(1, 4) {
+                break;
+            }
+            if let Some(j) = self.pick_where(|b| b.state == BState::Created) {
+                i = j;
+            }
+        }
         let exec = self.bufs[i].exec;
         let approver = self.pick_approver(exec);
         let role_arg = if self.rng.chance(9, 10) { EXEC_ROLES[exec] } else { EXEC_ROLES[(exec + 1 + self.rng.below(2) as usize) % 3] };
@@ -1206,12 +1234,21 @@ impl<'a> Hist<'a> {
             }
         } else {
             // Mode A: only the timelock can change roles. Immediate path: the bypass `revoke_role`.
-            let mut held: Vec<(Pubkey, String)> = self.roles.grants.iter().filter(|(u, r)| r.starts_with(TIMELOCKED_PREFIX) && *u != self.t.tl_admin).cloned().collect();
+            let admin_tld = timelocked_role(ADMIN_EXECUTOR_ROLE);
+            // `__TLD_ADMIN` cannot be revoked through the bypass: try it only rarely.
+            let allow_admin_tld = self.rng.chance(1, 12);
+            let mut held: Vec<(Pubkey, String)> = self
+                .roles
+                .grants
+                .iter()
+                .filter(|(u, r)| r.starts_with(TIMELOCKED_PREFIX) && *u != self.t.tl_admin && (allow_admin_tld || *r != admin_tld))
+                .cloned()
+                .collect();
             let approved: Vec<(Pubkey, String)> = self
                 .bufs
                 .iter()
                 .filter_map(|b| if let BState::Approved { by, .. } = b.state { Some((by, timelocked_role(EXEC_ROLES[b.exec]))) } else { None })
-                .filter(|(u, _)| *u != self.t.tl_admin)
+                .filter(|(u, r)| *u != self.t.tl_admin && *r != admin_tld && self.roles.grants.contains(&(*u, r.clone())))
                 .collect();
             if !approved.is_empty() && self.rng.chance(1, 2) {
                 held = approved;
@@ -1262,8 +1299,13 @@ impl<'a> Hist<'a> {
 
     fn step(&mut self) {
         let live = self.live().len();
-        let w_create = if live >= MAX_LIVE { 0 } else if live < 3 { 30 } else { 16 };
-        match self.rng.weighted(&[w_create, 18, 4, 5, 2, 27, 4, 10, 13]) {
+        let n_created = self.bufs.iter().filter(|b| b.state == BState::Created).count() as u32;
+        let n_approved = self.bufs.iter().filter(|b| matches!(b.state, BState::Approved { .. })).count() as u32;
+        let w_create = if live >= MAX_LIVE { 0 } else if live < 3 { 30 } else { 12 };
+        let w_approve = (6 + 8 * n_created).min(30);
+        let w_execute = (8 + 8 * n_approved).min(36);
+        let w_role = if self.mode_b { 9 } else { 4 };
+        match self.rng.weighted(&[w_create, w_approve, 4, 4, 2, w_execute, 4, w_role, 13]) {
             0 => self.op_create(),
             1 => self.op_approve(),
             2 => self.op_approve_many(),
@@ -1342,18 +1384,15 @@ fn run_history(seed: u64, shard: u64, hist: u64, n_ops: u64, m: &mut Monitor) {
             pre.push((approvers[e % approvers.len()], tld.clone()));
         }
     }
-    let t = w.bootstrap_timelock(store, &EXEC_ROLES, delay0, "main", &pre);
-    // A second store with its own timelock (delay 0): material for substituted-account attacks.
-    let alt_store = pda::find_store_address("alt", &STORE_PID).0;
+    // A second store with its own timelock (delay 0): material for substituted-account attacks. The
+    // program is built without `multi-store`, so the second store account is injected: a copy of the
+    // freshly bootstrapped store (admin is its authority) at another address; everything after that
+    // (roles, executor, authority hand-over, timelock config) goes through real instructions.
+    let alt_store = key("c36:alt-store");
     let admin = w.admin;
-    w.must(
-        "initialize alt store",
-        &[world::six(
-            gmsol_store::accounts::Initialize { payer: admin, authority: None, receiver: None, holding: None, store: alt_store, system_program: system_program::ID },
-            gmsol_store::instruction::Initialize { key: "alt".to_string() },
-        )],
-        &[admin],
-    );
+    let snapshot = w.svm.get(&store).cloned().expect("store account");
+    w.svm.set_account(alt_store, snapshot);
+    let t = w.bootstrap_timelock(store, &EXEC_ROLES, delay0, "main", &pre);
     let alt = w.bootstrap_timelock(alt_store, &["ADMIN"], 0, "main", &[]);
     if mode_b {
         w.tl_restore_admin_authority(store, &t, delay0, "main");
@@ -1426,13 +1465,26 @@ fn run_history(seed: u64, shard: u64, hist: u64, n_ops: u64, m: &mut Monitor) {
     }
 }
 
+extern "C" {
+    /// glibc `mallopt` (harness-side performance knob only).
+    fn mallopt(param: i32, value: i32) -> i32;
+}
+
 pub fn run(args: &Args) -> Option<i32> {
+    // Every transaction allocates and frees ~20 KiB account blocks; in worker threads glibc answers
+    // each free at the top of an arena with `madvise(MADV_DONTNEED)` (≈2 ms under load), which made
+    // the kernel the bottleneck. Keep freed memory in the arenas instead (M_TRIM_THRESHOLD = -1,
+    // M_TOP_PAD = -2). No influence on what is executed or decided.
+    unsafe {
+        mallopt(-1, i32::MAX);
+        mallopt(-2, 64 << 20);
+    }
     let mut mon = Monitor::new(args, RULE);
     let q = hostsvm::QuietStdout::new();
     let only_shard: Option<u64> = args.extra.get("shard").and_then(|s| s.parse().ok());
     let only_hist: Option<u64> = args.extra.get("history").and_then(|s| s.parse().ok());
-    let n_shards = args.scale(64, 256);
-    let per_shard = args.scale(24, 64);
+    let n_shards = args.scale(128, 256);
+    let per_shard = args.scale(160, 1000);
     let n_ops = args.scale(140, 180);
     let seed = args.seed;
     vcommon::monitor::run_shards(&mut mon, args.threads, n_shards, |shard, m| {
@@ -1452,24 +1504,30 @@ pub fn run(args: &Args) -> Option<i32> {
     drop(q);
     if only_shard.is_none() && only_hist.is_none() {
         mon.require("histories", n_shards * per_shard);
-        mon.require("exec_ok", 2_000);
-        mon.require("exec_ok_exactly_at_boundary", 100);
-        mon.require("exec_denied_one_second_early", 100);
-        mon.require("exec_denied_too_early", 500);
-        mon.require("exec_denied_not_approved", 500);
-        mon.require("exec_denied_approver_lost_role", 200);
-        mon.require("exec_denied_already_executed", 500);
-        mon.require("exec_denied_already_cancelled", 200);
-        mon.require("exec_ok_after_role_lost_and_regained", 20);
-        mon.require("approve_ok", 2_000);
-        mon.require("approve_denied_already_approved", 200);
-        mon.require("approve_denied_approver_without_role", 200);
-        mon.require("create_rejected_foreign_signer", 200);
-        mon.require("cancel_ok", 300);
-        mon.require("role_revocations_between_approve_and_execute", 200);
-        mon.require("delay_strictly_increased", 300);
-        mon.require("delay_increase_rejected_overflow", 20);
-        mon.require("reinitialize_config_refused", 100);
+        mon.require("exec_ok", 10_000);
+        mon.require("exec_ok_exactly_at_boundary", 2_500);
+        mon.require("exec_denied_one_second_early", 6_000);
+        mon.require("exec_denied_too_early", 30_000);
+        mon.require("exec_denied_not_approved", 40_000);
+        mon.require("exec_denied_approver_lost_role", 40_000);
+        mon.require("exec_denied_already_executed", 15_000);
+        mon.require("exec_denied_already_cancelled", 50_000);
+        mon.require("exec_ok_after_role_lost_and_regained", 700);
+        mon.require("exec_failed_inner_instruction", 20_000);
+        mon.require("approve_ok", 40_000);
+        mon.require("approve_many_ok", 1_500);
+        mon.require("approve_denied_already_approved", 15_000);
+        mon.require("approve_denied_approver_without_role", 50_000);
+        mon.require("create_ok", 60_000);
+        mon.require("create_rejected_foreign_signer", 20_000);
+        mon.require("cancel_ok", 30_000);
+        mon.require("role_revocations_between_approve_and_execute", 12_000);
+        mon.require("delay_strictly_increased", 25_000);
+        mon.require("delay_increase_rejected_overflow", 3_000);
+        mon.require("reinitialize_config_refused", n_shards * per_shard);
+        mon.require("exec_denied_with_variant_AltConfig", 8_000);
+        mon.require("exec_denied_with_variant_AltStore", 6_000);
+        mon.require("exec_denied_with_variant_WrongExecutor", 4_000);
     }
     mon.assume("no cluster restart: LastRestartSlot stays at the store's recorded value (under a restart the store defines RESTART_ADMIN holders as holding every role)");
     mon.assume("\"holds the role\" = the role is enabled in the store and granted to the address (gmsol_store RoleStore::has_role); the harness role model is cross-checked against the store account after every role change");
